@@ -200,10 +200,11 @@ def moves_and_copies(run):
             for nm, (kind, v) in outs.items():
                 fam = "C09/lowbit-clone" if (nm == "clone" and weights in ("qint4", "qint2")) else "C09"
                 tag = f"{weights}/{nm}/path{pi}"
+                rpo = lambda mo, sd, i=dict(inst), o_=nm: replay_moves(mo, sd, i, o_)
                 if kind == "raises":
-                    run.add(f"{fam}/copy-does-not-raise[{tag}]:{v.tname}", r.hyps, z3.BoolVal(False), "property", inst, replay=rp)
+                    run.add(f"{fam}/copy-does-not-raise[{tag}]:{v.tname}", r.hyps, z3.BoolVal(False), "property", inst, replay=rpo)
                     continue
-                run.add(f"{fam}/copy-keeps-class-codes-scales[{tag}]", r.hyps, inner_equal(w, v), "property", inst, {"returned": repr(v)[:60]}, replay=rp)
+                run.add(f"{fam}/copy-keeps-class-codes-scales[{tag}]", r.hyps, inner_equal(w, v), "property", inst, {"returned": repr(v)[:60]}, replay=rpo)
 
 
 def copied_module_forward(run):
@@ -390,7 +391,7 @@ def replay_freeze(model, seed, inst):
     return None
 
 
-def replay_moves(model, seed, inst):
+def replay_moves(model, seed, inst, op="clone"):
     import copy
     import torch
     from optimum.quanto import qtypes
@@ -400,12 +401,21 @@ def replay_moves(model, seed, inst):
     m.freeze()
     x = torch.randn(2, 16)
     y = m(x)
+    if op == "clone":
+        try:
+            c = copy.deepcopy(m)
+        except Exception as e:
+            return {"what": f"copy.deepcopy of a frozen {inst['weights']} module raises {type(e).__name__}: {str(e)[:150]}"}
+        if not torch.equal(c(x), y):
+            return {"what": "copy computes different outputs"}
+        return None
+    w = m.weight
     try:
-        c = copy.deepcopy(m)
+        v = w.detach() if op == "detach" else w.to("cpu", copy=True) if False else (w.detach() if op == "detach" else w.to(torch.device("cpu")))
     except Exception as e:
-        return {"what": f"copy.deepcopy of a frozen {inst['weights']} module raises {type(e).__name__}: {str(e)[:150]}"}
-    if not torch.equal(c(x), y):
-        return {"what": "copy computes different outputs"}
+        return {"what": f"{op} of a frozen {inst['weights']} weight raises {type(e).__name__}: {str(e)[:150]}"}
+    if type(v) is not type(w) or tuple(v.shape) != tuple(w.shape) or not torch.equal(v.dequantize(), w.dequantize()):
+        return {"what": f"{op} changes class, shape or values of the frozen weight"}
     return None
 
 
